@@ -106,8 +106,9 @@ def build(prop, tier, seed, L, main, can, obls, viol, und, reported, known_hits,
 
 
 def write(prop, ev):
-    os.makedirs(os.path.join(VERIF, "evidence"), exist_ok=True)
-    path = os.path.join(VERIF, "evidence", "%s.json" % prop)
+    edir = os.environ.get("VF_EVIDENCE_DIR") or os.path.join(VERIF, "evidence")     # selftest / mutant runs write elsewhere
+    os.makedirs(edir, exist_ok=True)
+    path = os.path.join(edir, "%s.json" % prop)
     try:
         import jsonschema
         schema = json.load(open("/root/.vp/EVIDENCE.schema.json"))
